@@ -462,7 +462,12 @@ Definition fs_okb (s : schema) (c : cas) (ids : list Z) (io : xid * oid) : bool 
         end &&
         forallb (fun fd => String.eqb (fd_xname fd) "elements" || match slot f (fd_name fd) with VNone => true | _ => false end)
                 (ti_feats ti)
-      else forallb (feat_okb s c ids tn f) (ti_feats ti)
+      else forallb (feat_okb s c ids tn f) (ti_feats ti) &&
+           (* an annotation type has the feature `sofa` of AnnotationBase, written by the sofa branch *)
+           (if isa s tn T_ANNOTATION
+            then existsb (fun fd => String.eqb (fd_name fd) "sofa" && String.eqb (fd_xname fd) "sofa"
+                                    && match wbranch s fd with WSofa => true | _ => false end) (ti_feats ti)
+            else true)
     end
   end.
 Definition text_okb (t : text) : bool := opt_eqb (list_eqb N.eqb) (utf8_decode (utf8_encode t)) (Some t).
